@@ -54,7 +54,9 @@ def classify_get_position(hc, hkl, wl):
             m = Exception.__str__(e)
             if "not implemented" in m:
                 return "NOTIMPL", m
-            if "No code yet" in m or "Internal error" in m:
+            # fall-through branches of the dispatchers: the mode reached a place where the solver has no code for it
+            if ("No code yet" in m or "Internal error" in m or "Cannot calculate alpha and beta reference angles" in m
+                    or "Given angle must be one of" in m or "Invalid set of sample constraints" in m):
                 return "NOCODE", m
             if "No solutions" in m:
                 return "nosol", m
